@@ -149,7 +149,7 @@ func init() {
 func runC07(r *engine.Run) {
 	r.Rule("CLONE-boundary", "every Value that enters a cache map from a caller, leaves one through a return of a cache method, or moves between maps of different layers (txn -> block -> state) has the result of a Clone() call (or nil / a fresh literal) as its only provenance on every path (forward provenance dataflow over go/ssa with field-sensitive local cells and nil-refinement)")
 	r.Rule("CLONE-linear", "one Clone() result has one owner: the copy produced by a single Clone() call is not both stored in a cache map and handed out (or stored in two maps) on the same execution; every boundary crossing needs a Clone() call of its own")
-	r.Rule("WHO-layers", "BlockCacher.setValue is called only from TransactionCache.Commit; the state cache's key->versions map and hash links are written only in StateCache.commit/commitRound/Get/Remove; no call path leads from TransactionCache.{Set,Remove,Get} to setValue or from BlockCache.{Set,remove,Get,setValue} to StateCache.commit (repo call graph, interface calls by class hierarchy)")
+	r.Rule("WHO-layers", "BlockCacher.setValue is called only from TransactionCache.Commit; the state cache's key->versions map is installed into only by StateCache.commit (and helpers that exist only for it) and removed from only by Remove - never by a lookup -, the hash links are written only in commit/commitRound; no call path leads from TransactionCache.{Set,Remove,Get} to setValue or from BlockCache.{Set,remove,Get,setValue} to StateCache.commit (repo call graph, interface calls by class hierarchy)")
 	r.Rule("CLONE-deep", "for every repo type implementing statecache.Value, Clone() does not return the receiver or anything sharing a reference with it: accepted forms are the codec copy (CreateNode over the receiver's Encode()) or a type without reference fields; CopyFrom stores only what it obtained through Clone()")
 	r.Rule("DOM-writekept", "see C06: a write or removal handed to a cache layer (TransactionCache.Set/Remove, BlockCache.Set/setValue/remove) is recorded in that layer's pending map on every feasible path to every return (a store under the key parameter), and these methods never delete from the pending map: a dropped tombstone lets an ancestor's value show through (commit visibility: what a transaction commits is what the block, and after the block's commit its descendants, return)")
 	r.Rule("WHO-readonly", "see C06: lookups never store into a pending map - a pending map is the write set that Commit publishes, so a memoised read would be committed as a write and overwrite what another transaction committed in between (writes are private until commit, and only writes are committed)")
@@ -281,7 +281,15 @@ func whoLayers(r *engine.Run) {
 		})
 	}
 	// 2. writers of StateCache.cache / hashCache
-	allowedCache := map[string]bool{"commit": true, "Get": true, "Remove": true}
+	// installs into the key->versions map belong to commit (and the helpers that exist only for
+	// it); removals to Remove. A lookup never installs: a lock-free reader that re-registers the
+	// map it fetched at its first step resurrects a map that Remove (or an eviction) has
+	// dropped in the meantime, over the fresh one a later commit created - that commit's write is lost
+	commitGroup := opGroup(r, scCommit)
+	var removeGroup []*ssa.Function
+	if rm, err := r.P.Func(pkgSC, "StateCache", "Remove"); err == nil {
+		removeGroup = opGroup(r, rm)
+	}
 	for _, f := range g.Funcs {
 		o := ord{}
 		engine.Instrs(f, func(in ssa.Instruction) {
@@ -301,8 +309,15 @@ func whoLayers(r *engine.Run) {
 				switch fld.Name() {
 				case "cache":
 					r.CallSites++
-					r.Check(recvNamed(top) == "StateCache" && allowedCache[top.Name()], rule, o.next("write:StateCache.cache<-"+fn(f)), r.P.Pos(in.Pos()),
-						"key->versions map written in "+top.Name(), "the state cache's key->versions map is written outside commit/Get/Remove")
+					okWriter := false
+					switch m {
+					case "Add", "ContainsOrAdd", "PeekOrAdd":
+						okWriter = inGroup(commitGroup, top)
+					default:
+						okWriter = inGroup(removeGroup, top)
+					}
+					r.Check(okWriter, rule, o.next("write:StateCache.cache<-"+fn(f)), r.P.Pos(in.Pos()),
+						"key->versions map: "+m+" in "+top.Name(), "the state cache's key->versions map is written ("+m+") outside the commit path / Remove: an install from a lookup re-registers a map that was dropped in the meantime over the one a later commit created, and that commit's write is lost to every later lookup")
 				case "hashCache":
 					r.CallSites++
 					r.Check(top == commitRound && commitRound != nil || top == scCommit, rule, o.next("write:StateCache.hashCache<-"+fn(f)), r.P.Pos(in.Pos()),
